@@ -14,13 +14,13 @@ namespace {
 const QByteArray SENDER = "sender@example.org/s";
 const QByteArray RECEIVER = "receiver@example.org/r";
 
-enum Fault { None, Drop, DropWithFakeAck, Duplicate, BitFlip, FlipSeq, FlipSid, WrongSidCopy, ForeignSenderCopy, CloseAfter, DataAfterClose, NFAULT };
+enum Fault { None, Drop, DropWithFakeAck, Duplicate, BitFlip, FlipSeq, FlipSid, WrongSidCopy, ForeignSenderCopy, CloseAfter, DataAfterClose, InsertExtra, NFAULT };
 const char *faultNames[] = { "none", "drop-block", "drop-block-acked-by-intermediary", "duplicate-block", "bit-flip-in-block", "flip-seq-of-block", "flip-sid-of-block", "copy-with-wrong-sid",
-                             "copy-from-other-sender", "close-after-block", "data-after-close" };
+                             "copy-from-other-sender", "close-after-block", "data-after-close", "extra-block-inserted-and-rest-renumbered" };
 // does the fault change what the receiver can assemble?
 bool contentChanging(int f)
 {
-    return f == Drop || f == DropWithFakeAck || f == BitFlip || f == FlipSeq || f == FlipSid || f == CloseAfter;
+    return f == Drop || f == DropWithFakeAck || f == BitFlip || f == FlipSeq || f == FlipSid || f == CloseAfter || f == InsertExtra;
 }
 
 struct Case {
@@ -124,6 +124,18 @@ struct Run {
         }
     }
 
+    static QByteArray withSeqPlus(QByteArray x, int delta)
+    {
+        const int p = x.indexOf("seq=\"");
+        if (p < 0) {
+            return x;
+        }
+        const int e = x.indexOf('"', p + 5);
+        const int v = x.mid(p + 5, e - p - 5).toInt();
+        x.replace(p + 5, e - p - 5, QByteArray::number((v + delta) % 65536));
+        return x;
+    }
+
     void relayFromSender(const QByteArray &it, const Case &c)
     {
         const bool isData = it.contains("<data xmlns=\"http://jabber.org/protocol/ibb\"");
@@ -133,6 +145,10 @@ struct Run {
             lastDataBlock = it;
             if (c.fault == CloseAfter && faultApplied) {
                 return;   // everything after the forged close is lost
+            }
+            if (c.fault == InsertExtra && faultApplied) {
+                r.server.write(stamp(withSeqPlus(it, 1), SENDER));   // the stream stays consecutive for the receiver
+                return;
             }
             if (idx == c.index && !faultApplied) {
                 QByteArray x = it;
@@ -152,6 +168,19 @@ struct Run {
                     r.server.write(stamp(it, SENDER));
                     r.server.write(stamp(it, SENDER));
                     return;
+                case InsertExtra: {
+                    // the payload of this block once more as a regular next block (surplus bytes with valid consecutive numbers)
+                    faultApplied = true;
+                    r.server.write(stamp(it, SENDER));
+                    QByteArray extra = withSeqPlus(it, 1);
+                    const int idp = extra.indexOf(" id=\"");
+                    if (idp >= 0) {
+                        const int ide = extra.indexOf('"', idp + 5);
+                        extra.replace(idp + 5, ide - idp - 5, "forged-extra-block");
+                    }
+                    r.server.write(stamp(extra, SENDER));
+                    return;
+                }
                 case BitFlip: {
                     faultApplied = true;
                     const int gt = x.indexOf('>', x.indexOf("<data"));
